@@ -113,11 +113,11 @@ Section Check.
 
   (* BlochSphereRotation.__eq__ *)
   Definition bsr_eq (q1 : Z) (ax1 : axis3 T) (a1 p1 : T) (q2 : Z) (ax2 : axis3 T) (a2 p2 : T) : bool :=
-    if negb (Z.eqb q1 q2) then false
+    let same_phase := nleb N (nabs N (nsub N p1 p2)) (atol N) in
+    if nltb N (nabs N a1) (atol N) && nltb N (nabs N a2) (atol N) then same_phase
+    else if negb (Z.eqb q1 q2) then false
     else
-      let same_phase := nleb N (nabs N (nsub N p1 p2)) (atol N) in
-      if nltb N (nabs N a1) (atol N) && nltb N (nabs N a2) (atol N) then same_phase
-      else if close_axis N ax1 ax2 then same_phase && nltb N (nabs N (nsub N a1 a2)) (atol N)
+      if close_axis N ax1 ax2 then same_phase && nltb N (nabs N (nsub N a1 a2)) (atol N)
       else if close_axis N ax1 (neg_axis N ax2) then
         if same_phase && nltb N (nabs N (nadd N a1 a2)) (atol N) then true
         else
@@ -130,7 +130,6 @@ Section Check.
   Definition gate_eq (g1 g2 : gate T) : result bool :=
     match g1, g2 with
     | BSR q1 ax1 a1 p1, BSR q2 ax2 a2 p2 => Ok (bsr_eq q1 ax1 a1 p1 q2 ax2 a2 p2)
-    | BSR _ _ _ _, _ => Ok false
     | _, _ => compare_gates g1 g2
     end.
 End Check.
